@@ -6,7 +6,7 @@ import ast
 from engine.defuse import value_sources
 from engine.flow import (dominating_guards, must_pass, path_avoiding, reachable_from_entry, returns_of,
                          same_name_value)
-from .common import CALLS, open_mode
+from .common import CALLS, open_mode, open_path_expr
 from .links import check_links
 
 META = {
@@ -310,11 +310,18 @@ def check(ctx):
             okm = "b" in mode and mode_ch in mode
             ctx.ob("glue.binary-%s" % name, f, n.ast, okm, "binary mode %r" % mode if okm else
                    "Config.%s opens the file with mode %r: bytes produced by the formatter are not written/read verbatim" % (name, mode), node=n)
-            path_arg = n.ast.args[0] if n.ast.args else None
+            path_arg = open_path_expr(n.ast)
             exp = False
             if path_arg is not None:
                 for kind, payload in value_sources(f, path_arg, n):
-                    if kind == "expr" and isinstance(payload, ast.Call) and ast.unparse(payload.func).endswith("expanduser"):
+                    if kind == "expr" and isinstance(payload, ast.AST) and any(
+                            isinstance(x, ast.Call) and ast.unparse(x.func).endswith("expanduser") for x in ast.walk(payload)):
                         exp = True
+                    if kind == "expr" and isinstance(payload, ast.AST):
+                        for nm in ast.walk(payload):
+                            if isinstance(nm, ast.Name):
+                                for k2, p2 in value_sources(f, nm, n):
+                                    if k2 == "expr" and isinstance(p2, ast.Call) and ast.unparse(p2.func).endswith("expanduser"):
+                                        exp = True
             ctx.ob("glue.expanduser-%s" % name, f, n.ast, exp, "path expanded with os.path.expanduser" if exp else
                    "Config.%s does not expand ~ while its counterpart does: a saved file is not found on load" % name, node=n)
